@@ -14,13 +14,13 @@ processes to exercise exactly that.
 namespace GoPlugin.Props.C03
 open GoPlugin Crash
 
-def pGood : Params := ⟨true, true, true, true, true, true, true⟩
+def pGood : Params := ⟨true, true, true, true, true, true, true, true⟩
 
 theorem good_eq (P : Params) (hP : P.Good) : P = pGood := by
-  obtain ⟨a, b, c, d, e, f, g⟩ := P
-  obtain ⟨h1, h2, h3, h4, h5, h6, h7⟩ := hP
-  simp only at h1 h2 h3 h4 h5 h6 h7
-  subst h1 h2 h3 h4 h5 h6 h7; rfl
+  obtain ⟨a, b, c, d, e, f, g, h⟩ := P
+  obtain ⟨h1, h2, h3, h4, h5, h6, h7, h8⟩ := hP
+  simp only at h1 h2 h3 h4 h5 h6 h7 h8
+  subst h1 h2 h3 h4 h5 h6 h7 h8; rfl
 
 /-- the state space is finite: every state, enumerated -/
 def allStates : List State :=
@@ -117,26 +117,34 @@ theorem no_op_hangs (P : Params) (hP : P.Good) (op : Op) : afterCrash P op ≠ .
 
 /-- without `defer c.ctxCancel()` the context handed to gRPC plugin clients is never cancelled -/
 theorem no_cancel_witness :
-    (settle ⟨false, true, true, true, true, true, true⟩ ⟨false, true, .scanning, .waitPipes, false, false⟩).ctxCancelled = false := by decide
+    (settle ⟨false, true, true, true, true, true, true, true⟩ ⟨false, true, .scanning, .waitPipes, false, false⟩).ctxCancelled = false := by decide
 
 /-- without the drain, a scanner that stopped on a long line leaves stdout unread (C10's defect D7 seen from here) -/
 theorem no_drain_witness :
-    ∃ s, runFrom ⟨true, true, false, true, true, true, true⟩ init [.scannerError] = some s ∧ s.stdout = .stuck := by
-  refine ⟨(runFrom ⟨true, true, false, true, true, true, true⟩ init [.scannerError]).get (by decide), by simp, by decide⟩
+    ∃ s, runFrom ⟨true, true, false, true, true, true, true, true⟩ init [.scannerError] = some s ∧ s.stdout = .stuck := by
+  refine ⟨(runFrom ⟨true, true, false, true, true, true, true, true⟩ init [.scannerError]).get (by decide), by simp, by decide⟩
 
 /-- when nobody receives from `linesCh` after `Start` returned, one further stdout line wedges the scanner: after the
 process dies the client never reports it as exited and the context is never cancelled -/
 theorem no_lines_drain_witness :
-    ∃ s, runFrom ⟨true, true, true, true, true, false, true⟩ init [.extraLine, .procDies] = some s ∧ s.procAlive = false ∧
-      (settle ⟨true, true, true, true, true, false, true⟩ s).exited = false ∧
-      (settle ⟨true, true, true, true, true, false, true⟩ s).ctxCancelled = false := by
-  refine ⟨(runFrom ⟨true, true, true, true, true, false, true⟩ init [.extraLine, .procDies]).get (by decide), by simp, by decide, by decide, by decide⟩
+    ∃ s, runFrom ⟨true, true, true, true, true, false, true, true⟩ init [.extraLine, .procDies] = some s ∧ s.procAlive = false ∧
+      (settle ⟨true, true, true, true, true, false, true, true⟩ s).exited = false ∧
+      (settle ⟨true, true, true, true, true, false, true, true⟩ s).ctxCancelled = false := by
+  refine ⟨(runFrom ⟨true, true, true, true, true, false, true, true⟩ init [.extraLine, .procDies]).get (by decide), by simp, by decide, by decide, by decide⟩
+
+/-- when the command's stdin is anything but the host's stdin file, `cmd.Wait` also waits for os/exec's stdin copier: with an
+open, idle host stdin the plugin's death is never reported -/
+theorem stdin_copier_witness :
+    ∃ s, runFrom ⟨true, true, true, true, true, true, true, false⟩ init [.procDies] = some s ∧ s.procAlive = false ∧
+      (settle ⟨true, true, true, true, true, true, true, false⟩ s).exited = false ∧
+      (settle ⟨true, true, true, true, true, true, true, false⟩ s).ctxCancelled = false := by
+  refine ⟨(runFrom ⟨true, true, true, true, true, true, true, false⟩ init [.procDies]).get (by decide), by simp, by decide, by decide, by decide⟩
 
 /-- when a `StartStream` can return without closing `quit` (the stream could not even be opened because the plugin was
 already dead), a later host-side broker Accept or Dial blocks for ever -/
 theorem quit_not_closed_witness :
-    afterCrash ⟨true, true, true, true, true, true, false⟩ .brokerAccept = .hang ∧
-    afterCrash ⟨true, true, true, true, true, true, false⟩ .brokerDial = .hang := by decide
+    afterCrash ⟨true, true, true, true, true, true, false, true⟩ .brokerAccept = .hang ∧
+    afterCrash ⟨true, true, true, true, true, true, false, true⟩ .brokerDial = .hang := by decide
 
 /-- non-vacuity: further stdout lines, then death -/
 example : ∃ s, runFrom pGood init [.extraLine, .extraLine, .procDies] = some s ∧ s.procAlive = false ∧
